@@ -4,11 +4,14 @@ PROPERTY = "C13"
 ENGINE = "histsim"
 
 TIERS = {
-    "quick": {"runs": 480, "faultfree_runs": 16, "determinism_runs": 16, "run_timeout": 600, "shrink_evals": 250},
-    "thorough": {"runs": 12000, "faultfree_runs": 64, "determinism_runs": 64, "run_timeout": 900, "shrink_evals": 500},
+    "quick": {"runs": 1500, "faultfree_runs": 16, "determinism_runs": 16, "run_timeout": 600, "shrink_evals": 250},
+    "thorough": {"runs": 40000, "faultfree_runs": 64, "determinism_runs": 64, "run_timeout": 900, "shrink_evals": 500},
 }
 
-DIRECTED = {"quick": [], "thorough": []}
+DIRECTED = {
+    "quick": [("cache_triples", 100 + i) for i in range(24)] + [("option_alternation", 200 + i) for i in range(12)],
+    "thorough": [("cache_triples", 100 + i) for i in range(240)] + [("option_alternation", 200 + i) for i in range(120)],
+}
 
 RULE = (
     "One evaluation = one simulated history of 5-40 (quick) / 5-60 (thorough) operations on a shared pool of quara objects (two 1-qubit composite systems, "
